@@ -32,6 +32,9 @@ def held_values(r):
         hs += ["f64:0:%d" % b, "f64:1:%d" % b]
     for s in ["", "0", "-1", "12", "abc", "1.5", "中文", "18446744073709551615"]:
         hs += ["str:0:" + hx(s), "str:1:" + hx(s), "bytes:0:" + hx(s), "bytes:1:" + hx(s)]
+    # JSON documents (for JSONScan: decoded value and error class are compared with encoding/json called directly)
+    for s in ['{"a":1,"b":[true,null,"x"]}', "[1,2,3]", '"x"', "null", "true", '{"a":', "[1,]", " 7 ", '{"a":1}{']:
+        hs += ["str:0:" + hx(s), "bytes:0:" + hx(s)]
     return hs
 
 
